@@ -135,8 +135,10 @@ func TruncateInBytes(s string, n int) (string, bool) {
 	r := []rune(s)
 	truncationTarget := n - 3
 
-	// Next, let's truncate the runes to the lower possible number.
-	truncatedRunes := r[:truncationTarget]
+	// Next, let's truncate the runes to the lower possible number. A string with
+	// multi-byte characters has fewer runes than bytes, so the target may exceed
+	// the number of runes.
+	truncatedRunes := r[:min(truncationTarget, len(r))]
 	for len(string(truncatedRunes)) > truncationTarget {
 		truncatedRunes = r[:len(truncatedRunes)-1]
 	}
